@@ -278,15 +278,15 @@ Proof.
 Qed.
 
 Lemma spost_same : forall s s' ev,
-  wf s -> wf s' -> alive s' = alive s -> next s' = next s -> (forall e, In e ev -> exists id, e = Touched id \/ e = UseAfterFree id \/ e = BadOp id \/ e = Live id) ->
+  wf s -> wf s' -> alive s' = alive s -> next s' = next s -> (forall e, In e ev -> exists id, (e = Touched id \/ e = Value id) \/ e = UseAfterFree id \/ e = BadOp id \/ e = Live id) ->
   spost s s' ev.
 Proof.
   intros s s' ev W W' A N E. constructor; auto; try rewrite A; try rewrite N; auto; try lia.
-  - intros id I. apply E in I as [x [H|[H|[H|H]]]]; discriminate.
+  - intros id I. apply E in I as [x [[H|H]|[H|[H|H]]]]; discriminate.
   - assert (destroyed_ids ev = []) as ->; [|constructor].
-    induction ev as [|e ev IH]; auto. simpl. destruct (E e (or_introl eq_refl)) as [x [H|[H|[H|H]]]]; subst; simpl; apply IH; intros; apply E; now right.
+    induction ev as [|e ev IH]; auto. simpl. destruct (E e (or_introl eq_refl)) as [x [[H|H]|[H|[H|H]]]]; subst; simpl; apply IH; intros; apply E; now right.
   - intros id H1 H2. congruence.
-  - intros e I F. apply E in I as [x [H|[H|[H|H]]]]; subst; try discriminate. eauto.
+  - intros e I F. apply E in I as [x [[H|H]|[H|[H|H]]]]; subst; try discriminate. eauto.
 Qed.
 
 Lemma resolve_slot_alive : forall s p o k, resolve s p = RLoc (LSlot o k) -> alive s o = true.
@@ -366,19 +366,19 @@ Ltac inv H := injection H as <- <-.
 Lemma step_spost : forall s o s' ev, wf s -> step s o = (s', ev) -> spost s s' ev.
 Proof.
   intros s o s' ev W St.
-  assert (Same : forall evs, (forall e, In e evs -> exists id, e = Touched id \/ e = UseAfterFree id \/ e = BadOp id \/ e = Live id) -> spost s s evs)
+  assert (Same : forall evs, (forall e, In e evs -> exists id, (e = Touched id \/ e = Value id) \/ e = UseAfterFree id \/ e = BadOp id \/ e = Live id) -> spost s s evs)
     by (intros; apply spost_same; auto).
   assert (Created : forall l tr evs, (forall o k, l = LSlot o k -> alive s o = true) ->
-            (forall e, In e evs -> exists id, e = Touched id \/ e = UseAfterFree id \/ e = BadOp id \/ e = Live id) -> spost s (create s l tr) evs).
+            (forall e, In e evs -> exists id, (e = Touched id \/ e = Value id) \/ e = UseAfterFree id \/ e = BadOp id \/ e = Live id) -> spost s (create s l tr) evs).
   { intros l tr evs L E. pose proof W as (A & B & C & D). constructor; simpl; auto.
     - now apply wf_create.
-    - intros id I. apply E in I as [x [H|[H|[H|H]]]]; discriminate.
+    - intros id I. apply E in I as [x [[H|H]|[H|[H|H]]]]; discriminate.
     - assert (destroyed_ids evs = []) as ->; [|constructor].
-      clear - E. induction evs as [|e evs IH]; auto. simpl. destruct (E e (or_introl eq_refl)) as [x [H|[H|[H|H]]]]; subst; simpl; apply IH; intros; apply E; now right.
+      clear - E. induction evs as [|e evs IH]; auto. simpl. destruct (E e (or_introl eq_refl)) as [x [[H|H]|[H|[H|H]]]]; subst; simpl; apply IH; intros; apply E; now right.
     - intros id L1 H. rewrite upd_other in H by lia. auto.
     - intros id H1 H2. pose proof (wf_lt_next s id W H1). rewrite upd_other in H2 by lia. congruence.
     - intros id L1 L2. assert (id = next s) as -> by lia. now rewrite upd_same.
-    - intros e I F. apply E in I as [x [H|[H|[H|H]]]]; subst; try discriminate. eauto. }
+    - intros e I F. apply E in I as [x [[H|H]|[H|[H|H]]]]; subst; try discriminate. eauto. }
   assert (Dropped : forall P s1 ev1, drop_where P s = (s1, ev1) -> spost s s1 ev1)
     by (intros P s1 ev1 R; apply post_spost; auto; now apply drop_where_post in R as [R _]).
   destruct o; simpl in St.
@@ -445,6 +445,17 @@ Proof.
   - (* PCheckpoint *) inv St. apply Same. intros e [<-|[]]; eauto.
   - (* PEngineEnd *) eapply Dropped; eauto.
   - (* PCxxRelease *) eapply Dropped; eauto.
+  - (* PWrite *)
+    unfold with_src, handle_at in St.
+    destruct (resolve s p) as [ls|id|] eqn:Rs; [destruct (find_ref ls s) as [h|] eqn:F| |];
+      try (inv St; apply Same; intros e [<-|[]]; eauto; fail).
+    destruct (alive s (h_tgt h)); inv St; [|apply Same; intros e [<-|[]]; eauto].
+    apply spost_same; auto. intros e [].
+  - (* PRead *)
+    unfold with_src, handle_at in St.
+    destruct (resolve s p) as [ls|id|] eqn:Rs; [destruct (find_ref ls s) as [h|] eqn:F| |];
+      try (inv St; apply Same; intros e [<-|[]]; eauto; fail).
+    inv St. apply Same. intros e [<-|[]]. destruct (alive s (h_tgt h)); eauto.
 Qed.
 
 (* ------------------------------------------------------------------------------------------ *)
@@ -739,6 +750,20 @@ Proof.
   - inv St. destruct I as [E|[]]; discriminate.
   - exfalso. eapply Dr; eauto.
   - exfalso. eapply Dr; eauto.
+  - unfold with_src, handle_at in St.
+    destruct (resolve s p) as [ls|x|] eqn:Rs; [destruct (find_ref ls s) as [h|] eqn:F| |].
+    + destruct (alive s (h_tgt h)) eqn:A; inv St; [destruct I|]. destruct I as [E|[]]. inversion E; subst.
+      apply find_ref_in in F as [l' F]. eauto.
+    + inv St. destruct I as [E|[]]. discriminate.
+    + inv St. destruct I as [E|[]]. inversion E; subst. eapply resolve_dead; eauto.
+    + inv St. destruct I as [E|[]]. discriminate.
+  - unfold with_src, handle_at in St.
+    destruct (resolve s p) as [ls|x|] eqn:Rs; [destruct (find_ref ls s) as [h|] eqn:F| |].
+    + inv St. destruct I as [E|[]]. destruct (alive s (h_tgt h)) eqn:A; inversion E; subst.
+      apply find_ref_in in F as [l' F]. eauto.
+    + inv St. destruct I as [E|[]]. discriminate.
+    + inv St. destruct I as [E|[]]. inversion E; subst. eapply resolve_dead; eauto.
+    + inv St. destruct I as [E|[]]. discriminate.
 Qed.
 
 Lemma step_no_uaf : forall s o s' ev id, wf s -> covered s -> step s o = (s', ev) -> ~ In (UseAfterFree id) ev.
@@ -915,6 +940,11 @@ Proof.
     + intros l h I O. pose proof (Np _ I) as F. destruct (N2 _ _ (p_refs0 _ I) O) as (db & Vd & _).
       destruct l as [[]|]; simpl in *; discriminate.
   - (* PCxxRelease *) eapply nested_drop_novar; eauto; intros; reflexivity.
+  - (* PWrite *)
+    unfold with_src in St. destruct (handle_at s p) as [[ls|x|] [h|]]; try (inv St; auto; fail).
+    destruct (alive s (h_tgt h)); inv St; auto.
+  - (* PRead *)
+    unfold with_src in St. destruct (handle_at s p) as [[ls|x|] [h|]]; inv St; auto.
 Qed.
 
 Lemma nested_init : nested init.
